@@ -44,6 +44,7 @@ class Lsn:
         self.name = name
         self.fd = fd
         self.closed = 0
+        self.shut = 0
 
     def getsockname(self):
         return self.name
@@ -53,6 +54,11 @@ class Lsn:
 
     def close(self):
         self.closed += 1
+
+    def shutdown(self, how):
+        # shutdown(2) acts on the socket itself, not on this process's descriptor: every process that inherited the
+        # listener stops listening with it
+        self.shut += 1
 
     def __str__(self):
         return str(self.name)
@@ -129,6 +135,9 @@ def unlink_flag(reexec_pid: int, master_pid: int, systemd: bool, reuse_port: boo
     finally:
         undo()
     alone = reexec_pid == 0 and master_pid == 0 and not systemd and not reuse_port
+    shared = reexec_pid != 0 or master_pid != 0 or systemd
+    if shared and any(l.shut for l in lsn):
+        return False                 # the other master (or the activating service manager) keeps using this very socket
     return all(l.closed == 1 for l in lsn) and arb.LISTENERS == [] and ((SOCK not in paths) == alone)
 
 
